@@ -241,4 +241,550 @@ theorem splitOne_noOverlap (pTime pDt origDt : Int) (hd : 0 < origDt) :
           omega
 
 
+
+/-! ## find_peaks -/
+
+/-- one iteration of the hit loop on the candidate -/
+def Cand.step (P : FPParams) (toPe : List Rat) (nCh : Nat) (c : Option Cand) (h : Hit) : Cand :=
+  (Cand.enter P nCh c h).add toPe h
+
+/-- the candidate built from a group of hits -/
+def buildCand (P : FPParams) (toPe : List Rat) (nCh : Nat) : List Hit → Option Cand
+  | [] => none
+  | h :: t => some (t.foldl (fun c x => Cand.step P toPe nCh (some c) x) (Cand.step P toPe nCh none h))
+
+theorem scanHits_cons (P : FPParams) (toPe : List Rat) (nCh : Nat) (c : Option Cand) (h : Hit) (rest : List Hit) :
+    scanHits P toPe nCh c (h :: rest) =
+      match rest with
+      | [] => [Cand.step P toPe nCh c h]
+      | nx :: _ =>
+        if isFar P (Cand.step P toPe nCh c h) nx || tooLong P (Cand.step P toPe nCh c h) nx
+        then Cand.step P toPe nCh c h :: scanHits P toPe nCh none rest
+        else scanHits P toPe nCh (some (Cand.step P toPe nCh c h)) rest := by
+  cases rest <;> simp [scanHits, Cand.step]
+
+def membersOf (c : Option Cand) : List Hit := match c with | some c => c.members | none => []
+
+theorem step_members (P : FPParams) (toPe : List Rat) (nCh : Nat) (c : Option Cand) (h : Hit) :
+    (Cand.step P toPe nCh c h).members = membersOf c ++ [h] := by
+  cases c <;> simp [Cand.step, Cand.enter, Cand.add, membersOf]
+
+/-- the candidate is the fold of the loop body over its members -/
+def Inv (P : FPParams) (toPe : List Rat) (nCh : Nat) (c : Cand) : Prop := buildCand P toPe nCh c.members = some c
+
+def InvO (P : FPParams) (toPe : List Rat) (nCh : Nat) : Option Cand → Prop
+  | none => True
+  | some c => Inv P toPe nCh c
+
+theorem step_inv (P : FPParams) (toPe : List Rat) (nCh : Nat) (c : Option Cand) (h : Hit) (hc : InvO P toPe nCh c) :
+    Inv P toPe nCh (Cand.step P toPe nCh c h) := by
+  unfold Inv
+  rw [step_members]
+  cases c with
+  | none => simp [membersOf, buildCand]
+  | some c =>
+    simp only [InvO, Inv] at hc
+    simp only [membersOf]
+    cases hm : c.members with
+    | nil => rw [hm] at hc; simp [buildCand] at hc
+    | cons h0 t =>
+      rw [hm] at hc
+      simp only [buildCand, Option.some.injEq] at hc
+      simp only [List.cons_append, buildCand, List.foldl_append, List.foldl_cons, List.foldl_nil, hc]
+
+/-- partition: the members of the closed candidates, concatenated, are the hits (after what the open candidate holds) -/
+theorem scanHits_flatten (P : FPParams) (toPe : List Rat) (nCh : Nat) :
+    ∀ (hits : List Hit) (c : Option Cand), hits ≠ [] →
+      ((scanHits P toPe nCh c hits).map (·.members)).flatten = membersOf c ++ hits := by
+  intro hits
+  induction hits with
+  | nil => intro c h; exact absurd rfl h
+  | cons h rest ih =>
+    intro c _
+    rw [scanHits_cons]
+    cases rest with
+    | nil => simp [step_members]
+    | cons nx r =>
+      simp only
+      split
+      · simp [step_members, ih none (by simp), membersOf]
+      · rw [ih _ (by simp)]; simp [membersOf, step_members]
+
+theorem scanHits_inv (P : FPParams) (toPe : List Rat) (nCh : Nat) :
+    ∀ (hits : List Hit) (c : Option Cand), InvO P toPe nCh c →
+      ∀ c' ∈ scanHits P toPe nCh c hits, Inv P toPe nCh c' := by
+  intro hits
+  induction hits with
+  | nil => intro c _ c' hc'; simp [scanHits] at hc'
+  | cons h rest ih =>
+    intro c hc c' hc'
+    rw [scanHits_cons] at hc'
+    have hs := step_inv P toPe nCh c h hc
+    cases rest with
+    | nil => simp at hc'; subst hc'; exact hs
+    | cons nx r =>
+      simp only at hc'
+      split at hc'
+      · simp only [List.mem_cons] at hc'
+        rcases hc' with rfl | hc'
+        · exact hs
+        · exact ih none trivial c' hc'
+      · exact ih (some _) hs c' hc'
+
+
+/-- inside a group: every further hit is neither far from nor too long for the candidate built so far -/
+def ChainOK (P : FPParams) (toPe : List Rat) (nCh : Nat) : Cand → List Hit → Prop
+  | _, [] => True
+  | c, h :: rest => isFar P c h = false ∧ tooLong P c h = false ∧ ChainOK P toPe nCh (Cand.step P toPe nCh (some c) h) rest
+
+def IsChain (P : FPParams) (toPe : List Rat) (nCh : Nat) : List Hit → Prop
+  | [] => False
+  | h :: t => ChainOK P toPe nCh (Cand.step P toPe nCh none h) t
+
+theorem ChainOK_append (P : FPParams) (toPe : List Rat) (nCh : Nat) (h : Hit) :
+    ∀ (l : List Hit) (c : Cand), ChainOK P toPe nCh c (l ++ [h]) ↔
+      ChainOK P toPe nCh c l ∧
+        isFar P (l.foldl (fun c x => Cand.step P toPe nCh (some c) x) c) h = false ∧
+        tooLong P (l.foldl (fun c x => Cand.step P toPe nCh (some c) x) c) h = false := by
+  intro l
+  induction l with
+  | nil => intro c; simp [ChainOK]
+  | cons x l ih => intro c; simp only [List.cons_append, ChainOK, List.foldl_cons, ih]; grind
+
+def ChainO (P : FPParams) (toPe : List Rat) (nCh : Nat) : Option Cand → Prop
+  | none => True
+  | some c => IsChain P toPe nCh c.members
+
+theorem step_chain (P : FPParams) (toPe : List Rat) (nCh : Nat) (c : Option Cand) (h : Hit)
+    (hi : InvO P toPe nCh c) (hc : ChainO P toPe nCh c)
+    (hn : ∀ c0, c = some c0 → isFar P c0 h = false ∧ tooLong P c0 h = false) :
+    IsChain P toPe nCh (Cand.step P toPe nCh c h).members := by
+  rw [step_members]
+  cases c with
+  | none => simp [membersOf, IsChain, ChainOK]
+  | some c =>
+    simp only [membersOf]
+    simp only [InvO, Inv] at hi
+    simp only [ChainO] at hc
+    cases hm : c.members with
+    | nil => rw [hm] at hi; simp [buildCand] at hi
+    | cons h0 t =>
+      rw [hm] at hi hc
+      simp only [buildCand, Option.some.injEq] at hi
+      simp only [List.cons_append, IsChain] at hc ⊢
+      rw [ChainOK_append, hi]
+      exact ⟨hc, hn c rfl⟩
+
+theorem scanHits_chain (P : FPParams) (toPe : List Rat) (nCh : Nat) :
+    ∀ (hits : List Hit) (c : Option Cand), InvO P toPe nCh c → ChainO P toPe nCh c →
+      (∀ c0 h r, c = some c0 → hits = h :: r → isFar P c0 h = false ∧ tooLong P c0 h = false) →
+      ∀ c' ∈ scanHits P toPe nCh c hits, IsChain P toPe nCh c'.members := by
+  intro hits
+  induction hits with
+  | nil => intro c _ _ _ c' hc'; simp [scanHits] at hc'
+  | cons h rest ih =>
+    intro c hi hc hn c' hc'
+    rw [scanHits_cons] at hc'
+    have hs := step_inv P toPe nCh c h hi
+    have hch := step_chain P toPe nCh c h hi hc (fun c0 e => hn c0 h rest e rfl)
+    cases rest with
+    | nil => simp at hc'; subst hc'; exact hch
+    | cons nx r =>
+      simp only at hc'
+      split at hc'
+      · simp only [List.mem_cons] at hc'
+        rcases hc' with rfl | hc'
+        · exact hch
+        · exact ih none trivial trivial (by intro c0 _ _ e; cases e) c' hc'
+      · rename_i hcond
+        refine ih (some _) hs hch ?_ c' hc'
+        intro c0 h' r' e1 e2
+        cases e1; cases e2
+        simpa using hcond
+
+/-- `f c h` holds between every closed candidate `c` and the first hit `h` of the next group -/
+def sepBy (f : Cand → Hit → Bool) : List Cand → Bool
+  | c :: c' :: rest => (match c'.members with | h :: _ => f c h | [] => false) && sepBy f (c' :: rest)
+  | _ => true
+
+/-- between consecutive groups: the first hit of the next group is far from (`>= gap_threshold` behind the
+running end of), or too long for, the closed candidate -/
+def Separated (P : FPParams) (cs : List Cand) : Prop := sepBy (fun c h => isFar P c h || tooLong P c h) cs = true
+
+/-- every boundary is a gap boundary (no `max_duration` cut happened) -/
+def SeparatedFar (P : FPParams) (cs : List Cand) : Prop := sepBy (fun c h => isFar P c h) cs = true
+
+instance (P : FPParams) (cs : List Cand) : Decidable (Separated P cs) := by unfold Separated; infer_instance
+instance (P : FPParams) (cs : List Cand) : Decidable (SeparatedFar P cs) := by unfold SeparatedFar; infer_instance
+
+theorem scanHits_head (P : FPParams) (toPe : List Rat) (nCh : Nat) :
+    ∀ (r : List Hit) (h : Hit) (c : Option Cand),
+      ∃ c' rest' t, scanHits P toPe nCh c (h :: r) = c' :: rest' ∧ c'.members = membersOf c ++ h :: t := by
+  intro r
+  induction r with
+  | nil => intro h c; exact ⟨Cand.step P toPe nCh c h, [], [], by simp [scanHits_cons], by simp [step_members]⟩
+  | cons nx r ih =>
+    intro h c
+    rw [scanHits_cons]
+    simp only
+    split
+    · exact ⟨_, _, [], rfl, by simp [step_members]⟩
+    · obtain ⟨c', rest', t, e1, e2⟩ := ih nx (some (Cand.step P toPe nCh c h))
+      exact ⟨c', rest', nx :: t, e1, by simp [e2, membersOf, step_members]⟩
+
+theorem scanHits_separated (P : FPParams) (toPe : List Rat) (nCh : Nat) :
+    ∀ (hits : List Hit) (c : Option Cand), Separated P (scanHits P toPe nCh c hits) := by
+  intro hits
+  induction hits with
+  | nil => intro c; simp [scanHits, Separated, sepBy]
+  | cons h rest ih =>
+    intro c
+    rw [scanHits_cons]
+    cases rest with
+    | nil => simp [Separated, sepBy]
+    | cons nx r =>
+      simp only
+      split
+      · rename_i hcond
+        obtain ⟨c', rest', t, e1, e2⟩ := scanHits_head P toPe nCh r nx none
+        have := ih none
+        rw [e1] at this ⊢
+        simp only [membersOf, List.nil_append] at e2
+        simp only [Separated, sepBy, e2, Bool.and_eq_true] at this ⊢
+        exact ⟨hcond, this⟩
+      · exact ih _
+
+/-! ### closed forms of the candidate's fields -/
+
+theorem addIdx_length (l : List Rat) (k : Nat) (v : Rat) : (addIdx l k v).length = l.length := by
+  induction l generalizing k with
+  | nil => simp [addIdx]
+  | cons b bs ih => cases k <;> simp [addIdx, ih]
+
+theorem addIdx_getD (l : List Rat) (k j : Nat) (v : Rat) (hk : k < l.length) :
+    (addIdx l k v).getD j 0 = l.getD j 0 + (if j = k then v else 0) := by
+  induction l generalizing k j with
+  | nil => simp at hk
+  | cons b bs ih =>
+    cases k with
+    | zero => cases j <;> simp [addIdx, Rat.add_zero]
+    | succ k =>
+      cases j with
+      | zero => simp [addIdx, Rat.add_zero]
+      | succ j =>
+        simp only [addIdx, List.getD_cons_succ]
+        rw [ih k j (by simpa using hk)]
+        simp
+
+/-- what a hit adds to the area of its peak, in PE -/
+def hitPE (toPe : List Rat) (x : Hit) : Rat := x.area * toPe.getD x.channel 0
+
+def stepF (P : FPParams) (toPe : List Rat) (nCh : Nat) : Cand → Hit → Cand :=
+  fun c x => Cand.step P toPe nCh (some c) x
+
+theorem fold_fields (P : FPParams) (toPe : List Rat) (nCh : Nat) :
+    ∀ (t : List Hit) (c : Cand),
+      (t.foldl (stepF P toPe nCh) c).time = c.time ∧
+      (t.foldl (stepF P toPe nCh) c).dt = c.dt ∧
+      (t.foldl (stepF P toPe nCh) c).endt = t.foldl (fun e x => max e x.endt) c.endt ∧
+      (t.foldl (stepF P toPe nCh) c).nHits = c.nHits + t.length ∧
+      (t.foldl (stepF P toPe nCh) c).area = c.area + (t.map (hitPE toPe)).sum ∧
+      (t.foldl (stepF P toPe nCh) c).apc.length = c.apc.length := by
+  intro t
+  induction t with
+  | nil => intro c; simp [Rat.add_zero]
+  | cons x t ih =>
+    intro c
+    simp only [List.foldl_cons]
+    obtain ⟨h1, h2, h3, h4, h5, h6⟩ := ih (stepF P toPe nCh c x)
+    rw [h1, h2, h3, h4, h5, h6]
+    simp only [stepF, Cand.step, Cand.enter, Cand.add, List.map_cons, List.sum_cons, List.length_cons, hitPE, addIdx_length]
+    refine ⟨trivial, trivial, trivial, by omega, by grind, trivial⟩
+
+theorem fold_apc (P : FPParams) (toPe : List Rat) (nCh : Nat) (k : Nat) :
+    ∀ (t : List Hit) (c : Cand), (∀ x ∈ t, x.channel < c.apc.length) →
+      (t.foldl (stepF P toPe nCh) c).apc.getD k 0
+        = c.apc.getD k 0 + ((t.filter (fun x => x.channel = k)).map (hitPE toPe)).sum := by
+  intro t
+  induction t with
+  | nil => intro c _; simp [Rat.add_zero]
+  | cons x t ih =>
+    intro c hch
+    simp only [List.foldl_cons]
+    have hx : x.channel < c.apc.length := hch x (by simp)
+    rw [ih (stepF P toPe nCh c x) (by
+      intro y hy
+      simp only [stepF, Cand.step, Cand.enter, Cand.add, addIdx_length]
+      exact hch y (by simp [hy]))]
+    simp only [stepF, Cand.step, Cand.enter, Cand.add]
+    rw [addIdx_getD _ _ _ _ hx]
+    by_cases hk : x.channel = k
+    · subst hk; simp [List.filter_cons, hitPE]; grind
+    · have : ¬ k = x.channel := fun e => hk e.symm
+      simp [List.filter_cons, hk, this]; grind
+
+
+/-- latest end among the hits of a group (0 for the empty group) -/
+def maxEndt : List Hit → Int
+  | [] => 0
+  | h :: t => t.foldl (fun e x => max e x.endt) h.endt
+
+theorem foldmax_ge (t : List Hit) (e : Int) :
+    e ≤ t.foldl (fun e x => max e x.endt) e ∧ ∀ x ∈ t, x.endt ≤ t.foldl (fun e x => max e x.endt) e := by
+  induction t generalizing e with
+  | nil => simp
+  | cons y t ih =>
+    simp only [List.foldl_cons, List.mem_cons]
+    obtain ⟨h1, h2⟩ := ih (max e y.endt)
+    refine ⟨by omega, ?_⟩
+    intro x hx
+    rcases hx with rfl | hx
+    · omega
+    · exact h2 x hx
+
+theorem le_maxEndt (g : List Hit) : ∀ x ∈ g, x.endt ≤ maxEndt g := by
+  cases g with
+  | nil => simp
+  | cons h t =>
+    intro x hx
+    simp only [maxEndt, List.mem_cons] at *
+    rcases hx with rfl | hx
+    · exact (foldmax_ge t _).1
+    · exact (foldmax_ge t _).2 x hx
+
+theorem foldmax_dvd (d : Int) (t : List Hit) (e : Int) (he : d ∣ e) (ht : ∀ x ∈ t, d ∣ x.endt) :
+    d ∣ t.foldl (fun e x => max e x.endt) e := by
+  induction t generalizing e with
+  | nil => simpa
+  | cons y t ih =>
+    simp only [List.foldl_cons]
+    apply ih
+    · rcases Int.le_total e y.endt with h | h
+      · rw [Int.max_eq_right h]; exact ht y (by simp)
+      · rw [Int.max_eq_left h]; exact he
+    · intro x hx; exact ht x (by simp [hx])
+
+/-- the fields of the candidate of a group, in closed form -/
+theorem buildCand_spec (P : FPParams) (toPe : List Rat) (nCh : Nat) (h : Hit) (t : List Hit) (c : Cand)
+    (hb : buildCand P toPe nCh (h :: t) = some c) :
+    c.time = h.time - P.left ∧ c.dt = h.dt ∧ c.endt = maxEndt (h :: t) ∧ c.nHits = ((h :: t).length : Int) ∧
+    c.area = ((h :: t).map (hitPE toPe)).sum ∧ c.apc.length = nCh ∧
+    ((∀ x ∈ h :: t, x.channel < nCh) → ∀ k, c.apc.getD k 0 = (((h :: t).filter (fun x => x.channel = k)).map (hitPE toPe)).sum) := by
+  simp only [buildCand, Option.some.injEq] at hb
+  subst hb
+  obtain ⟨h1, h2, h3, h4, h5, h6⟩ := fold_fields P toPe nCh t (Cand.step P toPe nCh none h)
+  have f : ∀ (c0 : Cand), t.foldl (fun c x => Cand.step P toPe nCh (some c) x) c0 = t.foldl (stepF P toPe nCh) c0 := fun _ => rfl
+  rw [f]
+  refine ⟨by rw [h1]; simp [Cand.step, Cand.enter, Cand.add], by rw [h2]; simp [Cand.step, Cand.enter, Cand.add], ?_, ?_, ?_, ?_, ?_⟩
+  · rw [h3]; simp [Cand.step, Cand.enter, Cand.add, maxEndt]
+  · rw [h4]; simp [Cand.step, Cand.enter, Cand.add]; omega
+  · rw [h5]; simp [Cand.step, Cand.enter, Cand.add, hitPE, Rat.zero_add]
+  · rw [h6]; simp [Cand.step, Cand.enter, Cand.add, addIdx_length, zeros]
+  · intro hch k
+    have hz : (zeros nCh).length = nCh := by simp [zeros]
+    rw [fold_apc P toPe nCh k t _ (by
+      intro x hx
+      simp only [Cand.step, Cand.enter, Cand.add, addIdx_length, hz]
+      exact hch x (by simp [hx]))]
+    simp only [Cand.step, Cand.enter, Cand.add]
+    rw [addIdx_getD _ _ _ _ (by rw [hz]; exact hch h (by simp))]
+    have hzero : (zeros nCh).getD k 0 = 0 := by
+      simp [zeros, List.getD_eq_getElem?_getD, List.getElem?_replicate]; split <;> rfl
+    rw [hzero]
+    by_cases hk : h.channel = k
+    · subst hk; simp [hitPE, Rat.zero_add]
+    · have : ¬ k = h.channel := fun e => hk e.symm
+      simp [hk, this, Rat.zero_add, Rat.add_zero]
+
+
+/-! ### the cuts -/
+
+/-- the peak a closed candidate becomes, if it passes the cuts -/
+def Cand.toPeak (P : FPParams) (nS : Nat) (c : Cand) : Option Peak :=
+  match c.finish P nS with
+  | .ok (some p) => some p
+  | _ => none
+
+theorem finishAll_ok (P : FPParams) (nS : Nat) :
+    ∀ (cs : List Cand) (peaks : List Peak), finishAll P nS cs = .ok peaks →
+      peaks = cs.filterMap (Cand.toPeak P nS) ∧ ∀ c ∈ cs, ∃ r, c.finish P nS = .ok r := by
+  intro cs
+  induction cs with
+  | nil => intro peaks h; simp [finishAll] at h; subst h; simp
+  | cons c cs ih =>
+    intro peaks h
+    unfold finishAll at h
+    split at h
+    · simp at h
+    · rename_i hf
+      obtain ⟨e, he⟩ := ih peaks h
+      refine ⟨by simp [List.filterMap_cons, Cand.toPeak, hf, e], ?_⟩
+      intro c' hc'
+      rcases List.mem_cons.mp hc' with rfl | hc'
+      · exact ⟨_, hf⟩
+      · exact he c' hc'
+    · rename_i p hf
+      split at h
+      · simp at h
+      · rename_i ps hps
+        simp only [Except.ok.injEq] at h
+        obtain ⟨e, he⟩ := ih ps hps
+        refine ⟨by simp [List.filterMap_cons, Cand.toPeak, hf, ← h, e], ?_⟩
+        intro c' hc'
+        rcases List.mem_cons.mp hc' with rfl | hc'
+        · exact ⟨_, hf⟩
+        · exact he c' hc'
+
+/-- a candidate becomes a peak exactly when it passes both cuts; the peak carries its fields -/
+theorem toPeak_some (P : FPParams) (nS : Nat) (c : Cand) (p : Peak) (h : c.toPeak P nS = some p) :
+    ¬ c.area < P.minArea ∧ ¬ nonzeroCount c.apc < P.minChannels ∧
+    p.time = c.time ∧ p.dt = c.dt ∧ p.length = Int.tdiv (c.endt - c.time + P.right) c.lastDt ∧ 0 < p.length ∧
+    p.area = c.area ∧ p.apc = c.apc ∧ p.nHits = c.nHits ∧ p.maxGap = c.maxGap := by
+  unfold Cand.toPeak Cand.finish at h
+  split at h
+  · rename_i q hq
+    split at hq
+    · simp at hq
+    · split at hq
+      · simp at hq
+      · split at hq
+        · simp at hq
+        · simp only [] at hq
+          split at hq
+          · simp at hq
+          · simp only [Except.ok.injEq, Option.some.injEq] at hq h
+            subst hq; subst h
+            refine ⟨by assumption, by assumption, rfl, rfl, rfl, by simp only; omega, rfl, rfl, rfl, rfl⟩
+  · simp at h
+
+theorem toPeak_none_of_cut (P : FPParams) (nS : Nat) (c : Cand)
+    (h : c.area < P.minArea ∨ nonzeroCount c.apc < P.minChannels) : c.toPeak P nS = none := by
+  unfold Cand.toPeak Cand.finish
+  rcases h with h | h
+  · simp [h]
+  · by_cases h' : c.area < P.minArea <;> simp [h, h']
+
+
+/-! ### order and separation of the closed candidates -/
+
+theorem inv_first (P : FPParams) (toPe : List Rat) (nCh : Nat) (c : Cand) (hi : Inv P toPe nCh c) :
+    ∃ f t, c.members = f :: t ∧ c.time = f.time - P.left := by
+  unfold Inv at hi
+  cases hm : c.members with
+  | nil => rw [hm] at hi; simp [buildCand] at hi
+  | cons f t =>
+    rw [hm] at hi
+    exact ⟨f, t, rfl, (buildCand_spec P toPe nCh f t c hi).1⟩
+
+theorem sorted_flatten_cons {l : List Hit} {L : List (List Hit)}
+    (h : (l :: L).flatten.Pairwise (fun a b => a.time ≤ b.time)) :
+    L.flatten.Pairwise (fun a b => a.time ≤ b.time) ∧ ∀ x ∈ l, ∀ l' ∈ L, ∀ y ∈ l', x.time ≤ y.time := by
+  simp only [List.flatten_cons, List.pairwise_append] at h
+  refine ⟨h.2.1, ?_⟩
+  intro x hx l' hl' y hy
+  exact h.2.2 x hx y (List.mem_flatten.mpr ⟨l', hl', hy⟩)
+
+/-- with time-sorted hits, candidates closed by the gap rule are separated by at least the threshold
+(measured between the running end of the earlier and the first hit of the later one) -/
+theorem pairwise_far (P : FPParams) (toPe : List Rat) (nCh : Nat) :
+    ∀ (cs : List Cand), (∀ c ∈ cs, Inv P toPe nCh c) →
+      (cs.map (·.members)).flatten.Pairwise (fun a b => a.time ≤ b.time) →
+      SeparatedFar P cs →
+      cs.Pairwise (fun c c' => c.endt + P.gap ≤ c'.time + P.left) := by
+  intro cs
+  induction cs with
+  | nil => intros; exact List.Pairwise.nil
+  | cons c rest ih =>
+    intro hinv hsort hsep
+    simp only [List.map_cons] at hsort
+    obtain ⟨hs1, hs2⟩ := sorted_flatten_cons hsort
+    cases rest with
+    | nil => exact List.pairwise_singleton _ _
+    | cons c' rest' =>
+      simp only [SeparatedFar, sepBy, Bool.and_eq_true] at hsep
+      obtain ⟨hfar, hsep'⟩ := hsep
+      refine List.Pairwise.cons ?_ (ih (fun x hx => hinv x (by simp [hx])) hs1 hsep')
+      obtain ⟨f', t', hm', ht'⟩ := inv_first P toPe nCh c' (hinv c' (by simp))
+      rw [hm'] at hfar
+      simp only [isFar, decide_eq_true_eq] at hfar
+      intro c'' hc''
+      rcases List.mem_cons.mp hc'' with rfl | hc''
+      · omega
+      · obtain ⟨f'', t'', hm'', ht''⟩ := inv_first P toPe nCh c'' (hinv c'' (by simp [hc'']))
+        simp only [List.map_cons] at hs1
+        have := (sorted_flatten_cons hs1).2 f' (by simp [hm']) c''.members (List.mem_map.mpr ⟨c'', hc'', rfl⟩) f'' (by simp [hm''])
+        omega
+
+/-- with time-sorted hits the candidates start in time order, duration cuts or not -/
+theorem pairwise_time (P : FPParams) (toPe : List Rat) (nCh : Nat) :
+    ∀ (cs : List Cand), (∀ c ∈ cs, Inv P toPe nCh c) →
+      (cs.map (·.members)).flatten.Pairwise (fun a b => a.time ≤ b.time) →
+      cs.Pairwise (fun c c' => c.time ≤ c'.time) := by
+  intro cs
+  induction cs with
+  | nil => intros; exact List.Pairwise.nil
+  | cons c rest ih =>
+    intro hinv hsort
+    simp only [List.map_cons] at hsort
+    obtain ⟨hs1, hs2⟩ := sorted_flatten_cons hsort
+    refine List.Pairwise.cons ?_ (ih (fun x hx => hinv x (by simp [hx])) hs1)
+    obtain ⟨f, t, hm, ht⟩ := inv_first P toPe nCh c (hinv c (by simp))
+    intro c'' hc''
+    obtain ⟨f'', t'', hm'', ht''⟩ := inv_first P toPe nCh c'' (hinv c'' (by simp [hc'']))
+    have := hs2 f (by simp [hm]) c''.members (List.mem_map.mpr ⟨c'', hc'', rfl⟩) f'' (by simp [hm''])
+    omega
+
+
+/-! ### the span of a peak -/
+
+theorem fold_lastDt (P : FPParams) (toPe : List Rat) (nCh : Nat) (d : Int) :
+    ∀ (t : List Hit) (c : Cand), c.lastDt = d → (∀ x ∈ t, x.dt = d) → (t.foldl (stepF P toPe nCh) c).lastDt = d := by
+  intro t
+  induction t with
+  | nil => intro c h _; simpa
+  | cons x t ih =>
+    intro c _ hx
+    simp only [List.foldl_cons]
+    exact ih _ (by simp [stepF, Cand.step, Cand.enter, Cand.add, hx x (by simp)]) (fun y hy => hx y (by simp [hy]))
+
+/-- hits of one sampling width `d`, on the sample grid -/
+def OnGrid (d : Int) (g : List Hit) : Prop := ∀ x ∈ g, x.dt = d ∧ d ∣ x.time
+
+/-- a peak spans its hits plus the extensions: it starts `left_extension` before the first hit and
+ends `right_extension` after the latest hit end (hits on a common sample grid) -/
+theorem peak_span (P : FPParams) (toPe : List Rat) (nCh nS : Nat) (c : Cand) (p : Peak) (d : Int)
+    (hi : Inv P toPe nCh c) (hd : 0 < d) (hg : OnGrid d c.members) (hl : d ∣ P.left) (hr : d ∣ P.right)
+    (hp : c.toPeak P nS = some p) :
+    ∃ f t, c.members = f :: t ∧ p.time = f.time - P.left ∧ p.endt = maxEndt c.members + P.right ∧ p.dt = d := by
+  obtain ⟨_, _, ht, hdt, hlen, _, _⟩ := toPeak_some P nS c p hp
+  unfold Inv at hi
+  cases hm : c.members with
+  | nil => rw [hm] at hi; simp [buildCand] at hi
+  | cons f t =>
+    rw [hm] at hi hg
+    obtain ⟨s1, s2, s3, _⟩ := buildCand_spec P toPe nCh f t c hi
+    have hlast : c.lastDt = d := by
+      simp only [buildCand, Option.some.injEq] at hi
+      rw [← hi]
+      exact fold_lastDt P toPe nCh d t _ (by simp [Cand.step, Cand.enter, Cand.add, (hg f (by simp)).1])
+        (fun x hx => (hg x (by simp [hx])).1)
+    have hfd : f.dt = d := (hg f (by simp)).1
+    have hdvd : d ∣ c.endt - c.time + P.right := by
+      have h1 : d ∣ c.endt := by
+        rw [s3]
+        apply foldmax_dvd
+        · simp only [Hit.endt, hfd]; exact Int.dvd_add (hg f (by simp)).2 (Int.dvd_mul_right _ _)
+        · intro x hx
+          simp only [Hit.endt, (hg x (by simp [hx])).1]
+          exact Int.dvd_add (hg x (by simp [hx])).2 (Int.dvd_mul_right _ _)
+      have h2 : d ∣ c.time := by rw [s1]; exact Int.dvd_sub (hg f (by simp)).2 hl
+      exact Int.dvd_add (Int.dvd_sub h1 h2) hr
+    refine ⟨f, t, rfl, by rw [ht, s1], ?_, by rw [hdt, s2, hfd]⟩
+    obtain ⟨k, hk⟩ := hdvd
+    have : p.length = k := by
+      rw [hlen, hlast, hk]; exact Int.mul_tdiv_cancel_left _ (by omega)
+    simp only [Peak.endt, ht, hdt, s2, hfd, this, ← s3]
+    omega
+
+
 end Strax.Peaks
